@@ -1456,7 +1456,7 @@ fn check_settle(
     }
     let key = format!("{}|{:?}", cx.cfg.name, cx.full_path(path, o));
     r.nontrivial(key.as_bytes());
-    r.sample(json!({
+    keep_sample(&key, json!({
         "cfg": cx.cfg.name,
         "path": cx.full_path(path, o),
         "policy": if plural {"allow-plural"} else {"default"},
@@ -1833,6 +1833,21 @@ fn probes(cx: &Ctx, st: &St, path: &[Op]) {
 // driver
 // ---------------------------------------------------------------------------------------------
 
+/// Samples are chosen deterministically (the 8 smallest keys), not by thread arrival order.
+static SAMPLES: std::sync::Mutex<BTreeMap<String, Value>> = std::sync::Mutex::new(BTreeMap::new());
+fn keep_sample(key: &str, v: Value) {
+    let mut g = SAMPLES.lock().unwrap_or_else(|e| e.into_inner());
+    // prefer long paths with mixed decisions: key them by (inverse length, text)
+    let k = format!("{:04}|{key}", 9999usize.saturating_sub(key.len()));
+    g.insert(k, v);
+    while g.len() > 8 {
+        let last = g.keys().next_back().cloned();
+        if let Some(l) = last {
+            g.remove(&l);
+        }
+    }
+}
+
 fn run_cfg(r: &Report, cfg: &Cfg, budget_frac: f64) {
     let cx = Ctx { r, cfg, replaying: false };
     let root = match root_state() {
@@ -1970,9 +1985,9 @@ fn configs(r: &Report) -> Vec<Cfg> {
         pins: true,
         nested: false,
         depth: if quick { 4 } else { 6 },
-        probe_depth: if quick { 3 } else { 5 },
+        probe_depth: if quick { 2 } else { 4 },
         prefix: vec![Op::Fork { k: 1, src: 0, t: 0 }],
-        last_level_settle_fork_only: quick,
+        last_level_settle_fork_only: true,
     });
     if !quick {
         v.push(Cfg {
@@ -2119,7 +2134,11 @@ fn main() {
     // expanded in parallel; all counters are order-independent sums).
     {
         use rayon::prelude::*;
-        cfgs.par_iter().for_each(|cfg| run_cfg(&r, cfg, 0.9));
+        let frac = if r.quick() { 0.5 } else { 0.33 };
+        cfgs.par_iter().for_each(|cfg| run_cfg(&r, cfg, frac));
+    }
+    for (_, v) in std::mem::take(&mut *SAMPLES.lock().unwrap_or_else(|e| e.into_inner())) {
+        r.sample(v);
     }
     // vacuity guards
     let c = |n: &str| r.counter_value(n);
